@@ -228,7 +228,15 @@ def check(args):
     # the quick tier runs one half of the value sweep first (which half follows the seed), the thorough tier all of it
     parts = 1 if tier["sweep"] else 2
     vs = value_sweep_cases(args.seed % parts, parts)
-    cases = vs + [c15.gen_case(s) for s in seeds]
+    sampled = [c15.gen_case(s) for s in seeds]
+    # alternate blocks of sweep and sampled cases: when the budget ends early both kinds have had their share
+    cases = []
+    i = j = 0
+    while i < len(vs) or j < len(sampled):
+        cases.extend(vs[i : i + BATCH])
+        i += BATCH
+        cases.extend(sampled[j : j + 2 * BATCH])
+        j += 2 * BATCH
     t_gen = time.time() - t0 - t_setup
     t1 = time.time()
     explore(cases, time.monotonic() + budget, report, agg, first_by_sig, suspects)
